@@ -49,6 +49,13 @@ def scenario_ops(name, nd, nblk=8):
                 pend.append(('write', d, 'n', det_bytes('%s/n' % d, (nblk // 2) * BS - 13 * i)))
         pend.append(('write', disks[0], 'sub/m', det_bytes('%s/m' % disks[0], BS + 5)))
         return pre, pend
+    if name == 'adds3':
+        # adds only, >= 3 data disks: d1 and d2 hold synced files covering every stripe, the LAST disk is empty and gets the new
+        # file: in the stripes of the new file its disk index differs from its rank among the blocks fix has to treat
+        # (check.c repair, strategy 2), whichever older disk is lost
+        pre = [[('write', d, 'a', det_bytes('%s/a3' % d, nblk * BS - 5 * i)) for i, d in enumerate(disks[:-1])]]
+        pend = [('write', disks[-1], 'n', det_bytes('%s/n3' % disks[-1], (nblk // 2) * BS + 9))]
+        return pre, pend
     if name == 'mixed':
         # adds + deletes + updates
         pre = [[('write', d, 'a', det_bytes('%s/a' % d, (nblk // 2) * BS)) for d in disks] +
